@@ -263,6 +263,21 @@ class ScalarArr(Value):
         return ScalarArr(B.scalar_binop(interp, op, a, b), self.shape)
 
 
+class TreeDefTok(Value):
+    """jax.tree.structure(container): (treedef token, number of leaves); `==` compares both"""
+
+    def __init__(self, treedef, n):
+        self.treedef, self.n = treedef, n
+
+    def sym_eq(self, other):
+        if not isinstance(other, TreeDefTok):
+            return False
+        return z_and(z_eq(self.treedef, other.treedef), z_eq(self.n, other.n))
+
+    def py_eq(self, interp, other):
+        return self.sym_eq(other)
+
+
 class AlgTheory(Theory):
     """method calls / isinstance on Op terms, construction of the core classes, list-surgery lemma instances"""
 
@@ -284,6 +299,7 @@ class AlgTheory(Theory):
         self.externals['jax.tree.map'] = self.tree_map
         self.externals['jax.tree.leaves'] = self.tree_leaves
         self.externals['jax.tree.all'] = self.tree_all
+        self.externals['jax.tree.structure'] = self.tree_structure
         self.equals_handlers.append(self.struct_eq)
         self.identical_handlers.append(self.op_identical)
         from props import C08
@@ -345,21 +361,40 @@ class AlgTheory(Theory):
                 if interp.run.branch(some):
                     from pyvc.values import PyRaise
                     raise PyRaise(o[1])
-            R = op_seq('mapped', seq.length)
+            # the result list is defined element-wise; its elements may be operators, structures, booleans, vectors
+            # (any z3 sort) or literal tuples of such terms (one defined array per component)
+            R, tup = None, False
             for c, o in normal:
                 v = o[1]
-                if not (is_z3(v) and v.sort() == Op):
+                comps = tuple(z3.BoolVal(x) if isinstance(x, bool) else x for x in (v if isinstance(v, tuple) else (v,)))
+                if not comps or not all(is_z3(x) for x in comps):
                     if isinstance(v, Obj):
                         raise Unsupported('tree.map over a symbolic container with a function building operator objects')
                     raise Unsupported(f'tree.map over a symbolic container returning {v!r}')
-                body = z3.Implies(z3.And(j >= 0, j < n, zbool(c)) if c is not True else z3.And(j >= 0, j < n),
-                                  R.arr[j] == v)
-                interp.run.assume(z3.ForAll([j], body, patterns=[R.arr[j]]))
-            res = B.PyList(None, seq=R)
+                if R is None:
+                    tup = isinstance(v, tuple)
+                    R = [SSeq.fresh('mapped', x.sort(), None, 'list', seq.length) for x in comps]
+                elif tup != isinstance(v, tuple) or [r.arr.sort().range() for r in R] != [x.sort() for x in comps]:
+                    raise Unsupported('tree.map over a symbolic container: results of different kinds on different paths')
+                rng = z3.And(j >= 0, j < n, zbool(c)) if c is not True else z3.And(j >= 0, j < n)
+                # triggers: the defined element, or (alternatively) the source leaf it is computed from, so that a fact
+                # about leaf j of the mapped tree also instantiates the definition
+                src = seq.get(j)
+                pats = [src] if (is_z3(src) and z3.is_select(src)) else []
+                for r, x in zip(R, comps):
+                    interp.run.assume(z3.ForAll([j], z3.Implies(rng, r.arr[j] == x), patterns=[r.arr[j]] + pats))
+            if R is None:
+                R = [op_seq('mapped', seq.length)]
+            if tup:
+                rs = SSeq(seq.length, lambda k, R=R: tuple(r.get(k) for r in R), 'list')
+                rs.components = R
+            else:
+                rs = R[0]
+            res = B.PyList(None, seq=rs)
         res.treedef = getattr(tree, 'treedef', 0)
-        if res.seq is not None:
+        if res.seq is not None and hasattr(res.seq, 'arr') and res.seq.arr.sort().range() == Op:
             self.after_seq_map(interp, res.seq, seq)
-            if len(others) == 1:
+            if len(others) == 1 and others[0].get(fresh_int('probe')).sort() == Op:
                 # block-wise products of two containers: LA4 instances for the lists at hand
                 run = interp.run
                 pa, la_, ra_ = arr_of(run, res.seq, interp), arr_of(run, seq, interp), arr_of(run, others[0], interp)
@@ -369,6 +404,12 @@ class AlgTheory(Theory):
                 run.assume(lem_struct_cong(None, pa, ra_, nn))
                 run.assume(lem_struct_cong(None, pa, la_, nn))
         return res
+
+    def tree_structure(self, interp, tree, is_leaf=None):
+        """jax.tree.structure of a flat container: its treedef token together with its number of leaves"""
+        if isinstance(tree, B.PyList):
+            return TreeDefTok(getattr(tree, 'treedef', 0), tree.as_seq().length)
+        raise Unsupported(f'tree.structure of {tree!r} in the alg facet')
 
     def tree_all(self, interp, tree):
         if isinstance(tree, B.PyList):
@@ -383,6 +424,8 @@ class AlgTheory(Theory):
         m = {'inputs': dict(S.inputs), 'func': S.func_name, 'scenario': S.label}
         if S.oracle:
             m['oracle'] = S.oracle
+        if getattr(S, 'pre_finding', None):
+            m['finding'] = S.pre_finding       # the scenario isolates a listed finding in its dependency preconditions
         return m
 
     def bind(self, interp):
@@ -461,6 +504,8 @@ class AlgTheory(Theory):
                     return isHom(v)
                 if c.info == self.cls_id:
                     return isId(v)
+                if c.info.name == 'AbstractLinearOperator':
+                    return True         # a term of sort Op IS an operator (closed world: every class derives from it)
                 ids = self.class_ids()
                 subs = [ids[d.fullname] for d in self.P.subclasses(c.info, concrete_only=True) if d.fullname in ids]
                 return z_or(*[cls_of(v) == i for i in subs])
